@@ -14,13 +14,21 @@
                                                            encrypted in order, decrypted in reverse order
             (4 bs mul key iv dec seed len)                 crypto/cipher's own CFB stream over the toy block
                                                            (ties the model std_cfb to the stock library)
+            (5 name key iv seed len)                       factory slicing: NewCrypt(name, key, iv) on keys / ivs
+                                                           of any length; the oracle table lists, for every stock
+                                                           cipher c and key-prefix length n that can be built,
+                                                           stock CFB of the message under c keyed with key[:n]
+                                                           and iv[:bs] (salsa20: key[:32], nonce iv[:8])
+            (6 name keyA ivA keyB ivB seed len)            two instances whose key / iv differ in one byte
    observed = (panicked (out ...))        for 0
               (keystream enc dec)         for 1   (dec = Decrypt(enc) on a second instance)
               (enc dec)                   for 2
               (panicked ((enc dec ref) ...))  for 3   (ref = the stock implementation's output:
                                                        crypto/cipher CFB with the first IV block /
                                                        salsa20.XORKeyStream / identity; an oracle table)
-              (panicked out)              for 4 *)
+              (panicked out)              for 4
+              (ctor_panicked run_panicked enc dec ((cipher n ref) ...))   for 5
+              (panickedA encA panickedB encB)                             for 6 *)
 From Coq Require Import ZArith NArith List Bool Arith.
 From FV Require Import Lib.Sx C16.Model.
 Import ListNotations.
@@ -117,6 +125,57 @@ Fixpoint prop_factory (specs obs : list sx) : verdict :=
   | _, _ => VBad
   end.
 
+(* factory slicing (kinds 5, 6): the model chooses cipher and key prefix, the oracle table / the
+   second instance answers *)
+Definition cid_num (c : cid) : Z :=
+  match c with AES => 1 | SM4 => 2 | TWOFISH => 3 | TDES => 4 | XTEA => 5 end%Z.
+
+Fixpoint table_find (c : Z) (n : nat) (t : list sx) : option (list N) :=
+  match t with
+  | SList [SInt c'; SInt n'; SBytes ref] :: r =>
+      if Z.eqb c c' && Z.eqb (Z.of_nat n) n' then Some ref else table_find c n r
+  | _ => None
+  end.
+
+Definition check_slicing (name key iv : list N) (m : list N) (cp rp : Z) (enc dec : list N) (t : list sx)
+  : verdict :=
+  match new_crypt name key iv with
+  | None => check_that (Z.eqb cp 1) (VMismatch 10)
+  | Some i =>
+      if Z.eqb cp 1 then VMismatch 10 else
+      match i with
+      | IBlock c k iv' _ =>
+          if length iv' <? cid_bs c then check_that (Z.eqb rp 1) (VMismatch 11)
+          else if Z.eqb rp 1 then VMismatch 11
+          else match table_find (cid_num c) (length k) t with
+               | Some ref => vjoin (check_that (nlist_eqb dec m) (VPropFail 2))
+                                   (check_that (nlist_eqb enc ref) (VMismatch 12))
+               | None => VMismatch 12
+               end
+      | IStream k _ =>
+          if Z.eqb rp 1 then VMismatch 11
+          else match table_find 6 (length k) t with
+               | Some ref => vjoin (check_that (nlist_eqb dec m) (VPropFail 5))
+                                   (check_that (nlist_eqb enc ref) (VMismatch 12))
+               | None => VMismatch 12
+               end
+      | INone => if Z.eqb rp 1 then VMismatch 11
+                 else check_that (nlist_eqb enc m && nlist_eqb dec m) (VPropFail 6)
+      end
+  end.
+
+(* do the two instances use the same key bytes and the same iv bytes, according to the model? *)
+Definition same_used (a b : inst) : bool :=
+  match a, b with
+  | IBlock c k iv _, IBlock c' k' iv' _ =>
+      nlist_eqb k k' && nlist_eqb (firstn (cid_bs c) iv) (firstn (cid_bs c') iv')
+  | IStream k n, IStream k' n' => nlist_eqb k k' && nlist_eqb n n'
+  | INone, INone => true
+  | _, _ => false
+  end.
+Definition runs (i : inst) : bool :=
+  match i with IBlock c _ iv _ => negb (length iv <? cid_bs c) | _ => true end.
+
 Definition check (c : sx) : verdict :=
   match c with
   | SList [SList [SInt 0%Z; SInt bs; SInt mul; SBytes key; SBytes iv; SBytes eb; SBytes db; SList ops];
@@ -153,6 +212,19 @@ Definition check (c : sx) : verdict :=
       match std_cfb bs (toy bs (Z.to_N mul) key) (Z.eqb dec 1) iv (lcg seed len) with
       | None => check_that (Z.eqb panicked 1) (VMismatch 9)
       | Some m => check_that (Z.eqb panicked 0 && nlist_eqb m out) (VMismatch 9)
+      end
+  | SList [SList [SInt 5%Z; SBytes name; SBytes key; SBytes iv; SInt seed; SInt len];
+           SList [SInt cp; SInt rp; SBytes enc; SBytes dec; SList t]] =>
+      check_slicing name key iv (lcg seed len) cp rp enc dec t
+  | SList [SList [SInt 6%Z; SBytes name; SBytes keyA; SBytes ivA; SBytes keyB; SBytes ivB; SInt seed; SInt len];
+           SList [SInt pA; SBytes encA; SInt pB; SBytes encB]] =>
+      match new_crypt name keyA ivA, new_crypt name keyB ivB with
+      | Some a, Some b =>
+          if runs a && runs b then
+            if Z.eqb pA 1 || Z.eqb pB 1 then VMismatch 11
+            else check_that (Bool.eqb (same_used a b) (nlist_eqb encA encB)) (VMismatch 13)
+          else VOk
+      | _, _ => VOk
       end
   | _ => VBad
   end.
